@@ -33,9 +33,13 @@ CLAIMED = {
     text="Deterministic simulation of operation histories on 1..4 live Deb822 handles (original, copies, objects re-parsed from a dump): assignments, deletions, pops, lookups, order_first/last/before/after, sort_fields with default and custom keys, copy, dump->parse, handle drops and gc.collect() as explicit schedule steps, including operations that must fail (KeyError / ValueError) and then change nothing. Every live handle is compared with an ordered list model (lower-case name, first spelling, value) after every step. Seeded sampling of histories.",
     ref="5.C09", note="Trusted: the list model (40 lines); values restricted to text that validate_input accepts and that survives dump->parse unchanged.",
     technique="deterministic simulation: seeded multi-handle operation histories with failing operations vs. ordered list model"),
+ "C11": dict(level="exploration",
+    text="Deterministic simulation of list views as transactions (open, append / remove / replace / reference-set / reference-remove incl. edits that must be refused, commit or abort) on different fields of one paragraph, interleaved and committed in any order by the seeded scheduler, with held ValueReferences and gc steps. Reads are judged against an independent splitter; an open view against a per-view list model; after a commit the field must re-read as the model list (splitter and fresh view), the rest of the document must be byte-identical (prefix + X + suffix), an untouched or aborted view must change nothing, and the document must still parse. Seeded sampling of layouts and histories.",
+    ref="5.C11", note="Trusted: the 8-line splitter, the field mini-parser; one open view per field at a time; removing the last value excluded.",
+    technique="deterministic simulation: seeded interleaving of commit-on-exit list-view transactions vs. splitter and list model"),
 }
 PENDING = {k: "Claimed in DESIGN.md section 5 (simulation target); its check is not built yet in this revision - listed here only until it is." for k in
-           "C07 C11 C15".split()}
+           "C07 C15".split()}
 NA = {
  "C01": "Pure function of the line list (quantifier: inputs only): no state, seam, fault or order of operations for a simulator to own; it is an enumeration / property-based-testing target (DESIGN.md section 2).",
  "C02": "Pure function of (text, input form, armor flag); the 'configurations' are argument shapes, not schedules or faults; input objects are iterated once, sequentially (DESIGN.md section 2).",
